@@ -232,7 +232,15 @@ func (wk *worker) typeExec(base string, in []byte, m mut, vs []primitive.Protoco
 		pv := v
 		cl.ver = byte(v)
 		wk.exec(&cl, in, m, func(in []byte) bool {
-			_, err := datatype.ReadDataType(bytes.NewReader(in), pv)
+			dt, err := datatype.ReadDataType(bytes.NewReader(in), pv)
+			if err == nil {
+				// "returns either a decoded value or an error": a nil descriptor without an error is
+				// neither, and a descriptor that cannot render itself is not a decoded value
+				if dt == nil {
+					panic("datatype.ReadDataType returned (nil, nil)")
+				}
+				_ = dt.AsCql()
+			}
 			return err == nil
 		})
 	}
